@@ -2,7 +2,7 @@
 linter claims to understand; the model (Sem/LintModel.v) is evaluated on the generator's description of every body and compared
 with the real linter; an independent reference analysis (the semantic reading of the same description) is the monitor."""
 from __future__ import annotations
-import random, json, sys, os, builtins
+import random, json, sys, os, builtins, re
 from ..harness import coq, impl, scn
 
 pid = 'C18'
@@ -304,7 +304,81 @@ def gen_cases(tier, seed):
     return corp + [gen_module(rnd) for _ in range(n)]
 
 
+KINDS_SRC = '''import deal
+import time
+
+
+def plain():
+    print(1)
+
+
+async def acallee():
+    print(1)
+
+
+@deal.has('time')
+async def acontract():
+    return 1
+
+
+class K:
+    def log(self):
+        print(1)
+
+    @deal.has()
+    def via_self(self):
+        self.log()
+        return 1
+
+    @deal.has()
+    def via_class(self):
+        K.log(self)
+        return 1
+
+
+@deal.has()
+def via_plain():
+    plain()
+    return 1
+
+
+@deal.has()
+async def via_await():
+    await acallee()
+    return 1
+
+
+@deal.has()
+async def via_await_contract():
+    await acontract()
+    return 1
+'''
+KINDS_WANT = {'via_self': 'stdout', 'via_class': 'stdout', 'via_plain': 'stdout', 'via_await': 'stdout', 'via_await_contract': 'time'}
+
+
+def callee_kinds_probe(ctx, fr):
+    """one level of calls into resolvable functions, whatever kind of function the callee is: a plain function, a coroutine function that is
+    awaited, a method reached through self or through the class. Markers only: for exceptions the dive is limited to plain functions (recorded in DESIGN 9.7)."""
+    r = impl.run_impl('lint_src.py', [{'src': KINDS_SRC, 'backend': 'astroid'}])[0]
+    fr.evaluations += len(KINDS_WANT); fr.add_nontrivial({'callee-kinds': sorted(KINDS_WANT)})
+    if 'crash' in r:
+        fr.violations.append({'scenario': {'family': 'callee-kinds', 'src': KINDS_SRC}, 'impl': r, 'what': 'the linter crashed: ' + r['crash'], 'signature': None}); return
+    rows = KINDS_SRC.split('\n')
+    def owner(row):
+        for i in range(row - 1, -1, -1):
+            m = re.match(r'\s*(?:async )?def (\w+)', rows[i])
+            if m: return m.group(1)
+    got = {}
+    for row, col, code, text in r['errors']:
+        if code.startswith('DEL04') or code.startswith('DEL05'): got.setdefault(owner(row), set()).add(text.split('(')[-1].rstrip(')'))
+    for fn, marker in KINDS_WANT.items():
+        if got.get(fn, set()) != {marker}:
+            fr.violations.append({'scenario': {'family': 'callee-kinds', 'src': KINDS_SRC, 'function': fn}, 'impl': r, 'signature': None,
+                                  'what': f'{fn}: the undeclared marker of its callee ({marker}) must be charged to it; marker findings: {sorted(got.get(fn, set()))}'})
+
+
 def run(ctx, fr, model_available=True, mods=None):
+    if mods is None: callee_kinds_probe(ctx, fr)
     mods = mods if mods is not None else gen_cases(ctx.tier, ctx.seed)
     rnd = random.Random(ctx.seed + 5)
     cases = []
